@@ -18,7 +18,6 @@ package core
 
 import (
 	"encoding/json"
-	"fmt"
 	"sync"
 	"time"
 )
@@ -432,7 +431,10 @@ func (s *LinearState) doFindRules(ctx *Context, event Map) (map[string]Map, erro
 				}
 			}
 		default:
-			panic(fmt.Errorf("rule %#v bad type", rule))
+			// AddFact accepts any map, so a "rule" property
+			// doesn't have to hold a rule.  Not a reason to
+			// fail every event from now on.
+			Log(WARN, ctx, "LinearState.FindRules", "name", s.Name, "id", id, "badrule", rule)
 		}
 	}
 
